@@ -82,7 +82,6 @@ func digestBytes(b []byte) (int, uint64) {
 	return len(b), h
 }
 
-
 func init() {
 	onReset(func() { cartM = nil })
 	register("cart.new", func(a []string) {
